@@ -45,6 +45,79 @@ pub const NUM_POOL: &[&str] = &[
     "8.5", "1234567890.0123456789", "5e-1", "0.0000001", "340282350000000000000000000000000000000",
 ];
 
+/// Number-like tokens enumerated over the grammar: integer part of every length that matters to the
+/// digit-count thresholds of the number parser (0, 1..=25 digits), every fraction / exponent shape,
+/// well-formed and damaged, with and without a sign.
+pub fn number_grammar() -> Vec<String> {
+    const DIGITS: &str = "9876543210123456789012345";
+    let mut ints: Vec<String> = vec!["0".into(), "00".into(), "01".into()];
+    for n in 1..=25 {
+        ints.push(DIGITS[..n].to_string());
+    }
+    ints.push("1".repeat(40));
+    const TAILS: &[&str] = &[
+        "", ".5", ".0", ".25e1", "e1", "E+2", "e-3", ".5E-2", ".12345678901234567890", ".00000000000000000001", "e0", "e00", ".", ".e1", ".E", "e", "E", "e+", "e-",
+        ".5.", ".5e", ".5e+", "..5", ".-5", "-", "+", ".5.5", "e1.5", "e1e1", ".x", "x", "e+x", ".5e1x", " .5", ". 5",
+    ];
+    let mut out = Vec::new();
+    for sign in ["", "-", "+", "--"] {
+        for i in &ints {
+            for t in TAILS {
+                if (sign == "+" || sign == "--") && !(t.is_empty() || *t == ".5") {
+                    continue;
+                }
+                out.push(format!("{sign}{i}{t}"));
+            }
+        }
+    }
+    out
+}
+
+/// RFC 8259 number grammar (used to select the well-formed members of `number_grammar`)
+pub fn is_json_number(s: &str) -> bool {
+    let b = s.as_bytes();
+    let mut i = 0;
+    if i < b.len() && b[i] == b'-' {
+        i += 1;
+    }
+    if i >= b.len() {
+        return false;
+    }
+    if b[i] == b'0' {
+        i += 1;
+    } else if b[i].is_ascii_digit() {
+        while i < b.len() && b[i].is_ascii_digit() {
+            i += 1;
+        }
+    } else {
+        return false;
+    }
+    if i < b.len() && b[i] == b'.' {
+        i += 1;
+        let st = i;
+        while i < b.len() && b[i].is_ascii_digit() {
+            i += 1;
+        }
+        if i == st {
+            return false;
+        }
+    }
+    if i < b.len() && (b[i] == b'e' || b[i] == b'E') {
+        i += 1;
+        if i < b.len() && (b[i] == b'+' || b[i] == b'-') {
+            i += 1;
+        }
+        let st = i;
+        while i < b.len() && b[i].is_ascii_digit() {
+            i += 1;
+        }
+        if i == st {
+            return false;
+        }
+    }
+    i == b.len()
+}
+
 pub fn gen_number(rng: &mut Rng, floats: bool) -> String {
     match rng.below(10) {
         0..=4 => {
